@@ -3,6 +3,7 @@ package sim
 import (
 	"encoding/json"
 	"fmt"
+	"sort"
 	"strings"
 
 	"github.com/resgateio/resgate/server/mq"
@@ -305,7 +306,7 @@ func (s *Sim) answer(r *Req, outcome string) {
 		if res := s.W.Res[r.Name]; res != nil && res.V != nil {
 			if v := res.V[r.Query]; v != nil {
 				if outcome == "err:system.notFound" || outcome == "noresp" {
-					v.announce(&StreamEv{Kind: "delete", Derived: true, EmitStep: s.Step, EmitCut: s.Cut}, true)
+					v.announce(&StreamEv{Kind: "delete", Derived: true, Via: r, EmitStep: s.Step, EmitCut: s.Cut}, true)
 					s.sawDerived[v] = true
 				} else {
 					// the gateway cannot learn what the query event changed
@@ -326,9 +327,12 @@ func (s *Sim) answer(r *Req, outcome string) {
 			if res := s.W.Res[r.Name]; res != nil && res.V != nil {
 				if v := res.V[r.Query]; v != nil {
 					notFound := outcome == "err:system.notFound" || outcome == "noresp"
-					if notFound {
+					if !s.loadedWhenAnswered(r, v) {
+						// the gateway ignores the answer to a re-fetch that arrives
+						// before the resource has been loaded
+					} else if notFound {
 						// the gateway turns a not-found re-fetch into a delete event
-						v.announce(&StreamEv{Kind: "delete", Derived: true, EmitStep: s.Step, EmitCut: s.Cut}, true)
+						v.announce(&StreamEv{Kind: "delete", Derived: true, Via: r, EmitStep: s.Step, EmitCut: s.Cut}, true)
 						s.sawDerived[v] = true
 						s.deletedByRefetch[v] = true
 					} else {
@@ -403,6 +407,34 @@ func (t *Transport) enqueueDirect(r *Req, payload []byte, err error) {
 	t.enqueueReply(r, "", payload, err, nil)
 }
 
+// loadedWhenAnswered: by the time the answer to re-fetch r reaches the gateway
+// (answers to get requests travel in order) an earlier load of the variant
+// has been answered with data. Otherwise the gateway has nothing to compare
+// the answer with and ignores it.
+func (s *Sim) loadedWhenAnswered(r *Req, v *Variant) bool {
+	res := s.W.Res[r.Name]
+	var qs []*Req
+	for _, q := range s.tr.reqs {
+		if q == r || q.Type != "get" || q.Name != r.Name || q.SubGen != r.SubGen || !q.Answered {
+			continue
+		}
+		if n, ok := res.normalise(q.Query); !ok || n != v.Query {
+			continue
+		}
+		qs = append(qs, q)
+	}
+	sort.Slice(qs, func(i, j int) bool { return qs[i].AnsStep < qs[j].AnsStep })
+	loaded := false
+	for _, q := range qs {
+		if q.Rf == 0 && q.GotData {
+			loaded = true
+		} else if q.Rf != 0 && q.NotFound {
+			loaded = false
+		}
+	}
+	return loaded
+}
+
 func (s *Sim) markUnsure(r *Req) {
 	if res := s.W.Res[r.Name]; res != nil && res.V != nil {
 		if v := res.V[r.Query]; v != nil {
@@ -433,9 +465,9 @@ func (s *Sim) answerGet(r *Req) {
 		refetch = true
 	}
 	if !ok || v == nil || v.Deleted {
-		if refetch && v != nil && !v.deleteAnnounced() {
+		if refetch && v != nil && !v.deleteAnnounced() && s.loadedWhenAnswered(r, v) {
 			// silently deleted: the not-found answer makes the gateway send a delete event
-			v.announce(&StreamEv{Kind: "delete", Derived: true, EmitStep: s.Step, EmitCut: s.Cut}, true)
+			v.announce(&StreamEv{Kind: "delete", Derived: true, Via: r, EmitStep: s.Step, EmitCut: s.Cut}, true)
 			s.sawDerived[v] = true
 		}
 		r.NotFound = true
